@@ -166,6 +166,9 @@ func (s *Solver) Model(vars []*Term) *Model {
 		return m
 	}
 	var sb strings.Builder
+	for _, v := range vars {
+		s.emit(v) // a variable not yet mentioned in any assertion must still be declared (global declarations)
+	}
 	sb.WriteString("(get-value (")
 	for _, v := range vars {
 		sb.WriteString(v.name + " ")
@@ -176,6 +179,11 @@ func (s *Solver) Model(vars []*Term) *Model {
 	var all strings.Builder
 	for {
 		l := s.readLine()
+		if strings.HasPrefix(l, "(error") {
+			s.Errors++
+			fmt.Println("SOLVER ERROR (get-value):", l)
+			return m
+		}
 		all.WriteString(l + " ")
 		depth += strings.Count(l, "(") - strings.Count(l, ")")
 		if depth <= 0 {
